@@ -146,6 +146,20 @@ pub open spec fn eff_end(end: Option<usize>, len: Option<usize>) -> Option<usize
     }
 }
 
+// ------------------------------------------------------------------ Chain: cumulative part lengths
+/// representation invariant of `XSequence::Chain { parts, midpoint_lengths }` (established by XSequence::chain):
+/// midpoint_lengths[k] is the total length of parts[0..=k] -- non-decreasing -- and there is one more part
+/// than midpoints
+pub open spec fn chain_ok(parts_len: int, mid: Seq<usize>) -> bool {
+    parts_len == mid.len() + 1 && forall|i: int, j: int| 0 <= i < j < mid.len() ==> mid[i] <= mid[j]
+}
+/// R-ppoint target: `s.partition_point(|x| *x <= k)` on a sorted slice is the number of elements <= k
+#[verifier::external_body]
+pub fn vx_partition_point_le(s: &Vec<usize>, k: usize) -> (r: usize)
+    requires forall|i: int, j: int| 0 <= i < j < s@.len() ==> s@[i] <= s@[j],
+    ensures r <= s@.len(), forall|i: int| 0 <= i < s@.len() ==> ((#[trigger] s@[i]) <= k) == (i < r),
+{ unimplemented!() }
+
 // @@EXTRACTED@@
 
 } // verus!
